@@ -426,6 +426,13 @@ class Corr(object):
                     self.res.disagreements.append({'stream': stream, 'case': case,
                                                    'model': 'inside docOK but resolve(flatten) != canon',
                                                    'real': 'theorem xml_roundtrip_events'})
+                if len(model) >= 4:
+                    intext, tholds = (str(model[2]) == 'T'), (str(model[3]) == 'T')
+                    self.res.count('theorem-text-domain:%s:%s' % (stream, 'inside' if intext else 'outside'))
+                    if intext and not tholds:
+                        self.res.disagreements.append({'stream': stream, 'case': case,
+                                                       'model': 'inside docOK and bodyOK but read(serialize) != canon',
+                                                       'real': 'theorem xml_roundtrip_partial'})
                 continue
             if post:
                 model = post(model)
@@ -596,9 +603,20 @@ def shard(arg):
         doc = gen_xml.gen_doc(rng, html_entities=False)
         text = gen_xml.write_doc(doc)
         corr.add_text(text, {'kind': 'read', 'text': text}, tag='-source')
-    for i in range(min(len(texts), ndocs // 4)):
-        t = mutate(rng, rng.choice(texts))
-        corr.add_text(t, {'kind': 'read', 'text': t}, tag='-mutated')
+    # accept/reject agreement of the Lean reader and expat on damaged texts.  ASCII only: the reader does not
+    # carry the Unicode name tables (any non-ASCII XML character is a name character for it)
+    for i in range(ndocs // 4):
+        doc = gen_xml.gen_doc(rng, html_entities=False, nonascii='none')
+        t = gen_xml.write_doc(doc)
+        if rng.random() < 0.5:
+            try:
+                t = ''.join(_ser(list(XML(t))))
+            except Exception:  # noqa
+                pass
+        for _ in range(rng.choice([1, 1, 2, 3])):
+            t = mutate(rng, t)
+        if all(ord(c) < 128 for c in t):
+            corr.add_text(t, {'kind': 'read', 'text': t}, tag='-mutated')
     for i in range(ntrees):
         tree = gen_xml.gen_tree(rng, depth=rng.choice([1, 2, 3, 4]))
         case = {'kind': 'tree', 'tree': tree}
@@ -654,9 +672,9 @@ def _ser(events):
 
 def run(ctx):
     nsh = 16
-    ndocs = ctx.n(320, 12500)
-    ntrees = ctx.n(130, 5000)
-    nwild = ctx.n(260, 8000)
+    ndocs = ctx.n(320, 6000)
+    ntrees = ctx.n(130, 2500)
+    nwild = ctx.n(260, 4000)
     args = [(ctx.seed, i, ndocs, ntrees, nwild, {}) for i in range(nsh)]
     res = Result()
     for r in pmap('harness.props.c02', 'shard', args):
